@@ -44,9 +44,16 @@ func VerifTxnSequence() {
 	undetermined := false // a Set ended without applying anything: may hold the datastore until the timeout at most
 	txn := 0
 	for i := 0; i < n; i++ {
-		op := verifrt.Choice("op", 9)
+		op := verifrt.Choice("op", 10)
 		setsBefore := env.tgt.Sets
 		same := false
+		reuseID := false
+		if op == 9 {
+			// Set(valid) that REUSES the id of the open transaction (a client re-sending a
+			// request whose answer it lost): refused like any other Set while one is open, and
+			// without any effect on the open transaction
+			op, reuseID = 0, true
+		}
 		if op == 8 {
 			// Set(valid) with ALWAYS THE SAME content: once it has been kept, submitting it
 			// again is a successful transaction whose diff towards the device is empty
@@ -56,6 +63,9 @@ func VerifTxnSequence() {
 		case 0, 1, 2, 3: // Set: valid | invalid | dry-run | device-error
 			txn++
 			id := "t" + string(rune('0'+txn))
+			if reuseID && open != "" {
+				id = open
+			}
 			ctx, cancel := context.WithTimeout(context.Background(), 50*time.Millisecond)
 			if op == 3 {
 				env.tgt.FailSet = env.tgt.Sets + 1
